@@ -1,4 +1,4 @@
-(* C26/Gen.v — regenerated from src/cffi/api.py FFI.init_once.  Do not edit: rewritten by tools/props/c26.py regen() on every run. *)
+(* C26/Gen.v — SNAPSHOT (translation of the current source failed).  Do not edit: rewritten by tools/props/c26.py regen() on every run. *)
 From Coq Require Import List.
 Import ListNotations.
 From Cffi Require Import C26.Model.
